@@ -495,6 +495,12 @@ sgsitrf(superlu_options_t *options, SuperMatrix *A, int relax, int panel_size,
 			if (error) { *info = error; return; }
 			lsub = Glu->lsub;
 		    }
+		    /* the fill-in entry also needs a slot in lusup */
+		    nzlumax = Glu->nzlumax;
+		    while ( xlusup[jj] + 1 > nzlumax ) {
+			if ((*info = sLUMemXpand(jj, xlusup[jj], LUSUP, &nzlumax, Glu)))
+			    return;
+		    }
 		    xlsub[jj + 1]++;
 		    assert(xlusup[jj]==xlusup[jj+1]);
 		    xlusup[jj + 1]++;
